@@ -188,7 +188,10 @@ func (r *router) simple(k key) {
 	} else {
 		var ok bool
 		if h, ok = hashOf(k); !ok {
-			tr.Fatal("harness generated a key XXHash does not support: %T", k.v)
+			// every key the harness draws is of a type the routing is documented to take: a panic
+			// here is an observation of the code under test, not a harness fault
+			r.emit("simple", k.routeRec("simple"), 0, panicIdx, "panic in XXHash")
+			return
 		}
 	}
 	i, note := index(func() int { return rm.SimpleIndex(k.v) })
@@ -202,7 +205,8 @@ func (r *router) xhash(k key) {
 	rm := r.inst()
 	h, ok := hashOf(k)
 	if !ok {
-		tr.Fatal("harness generated a key XXHash does not support: %T", k.v)
+		r.emit("xhash", k.routeRec("xhash"), 0, panicIdx, "panic in XXHash")
+		return
 	}
 	i, note := index(func() int { return rm.XHashIndex(k.v) })
 	r.emit("xhash", k.routeRec("xhash"), h, i, note)
